@@ -428,6 +428,23 @@ def reader_scripts(rng, thorough):
                     r.unchecked(rng.randint(0, min(64 * W - r.pos, 128 if kind == "U" else 64)), kind)
                     _rop(r, rng.choice("1rRA"), rng.randint(1, 9))
                 out.append(("unchecked-padding", _line(w, r), w.expect()))
+        # read_prefix_table_idx (Huff.v): strides of 1..6 bits at every position near the word boundaries
+        # and near the end of the data (the three alignment cases, incl. the one leaving the position a word too far)
+        for L in list(range(1, 18)) + [23, 24, 25]:
+            for ck in ("rand", "ones"):
+                w, r = start(_content(rng, ck, L))
+                T = 8 * L
+                r._start()
+                cand = sorted(set([0, 1, T - 1] + [p for b in (64, 128, 192) for p in range(b - 7, b + 2)] + list(range(max(0, T - 8), T + 1))
+                                  + [rng.randrange(T) for _ in range(6)]))
+                for p0 in cand:
+                    if 0 <= p0 <= T:
+                        n = rng.randint(1, 6)
+                        r.ops.append("S:%d" % p0); r.ops.append("T:%d" % n)
+                        if rng.random() < 0.3:
+                            r.ops.append("T:%d" % rng.randint(1, 6))     # a second stride from wherever the first one left the reader
+                r.ops.append("S:0"); r.pos = 0; r.can_b0 = False
+                out.append(("table-idx", _line(w, r), w.expect()))
     # mixed scripts: arbitrary writer content (bit granular, zero padded), arbitrary reader ops
     for _ in range(560 * reps):
         w = WScript()
